@@ -3,19 +3,28 @@
    Model: SetOp.v (render_setop mirrors _SetOperation.get_sql; spec_text is the independent specification). *)
 From PV Require Import Base SetOp lemmas.SetOpLemmas.
 
-(* The property, for every chain (any length, any operator mix, any operands — an operand is any object with a
-   rendering function and a list of selected terms), every keyword-argument context:
-   rendering raises SetOperationException exactly when some operand's arity differs from the base's, and otherwise
-   yields exactly the specified text: operands in call order, each operand's own text unchanged and parenthesised
-   iff the base's flag asks, the operators' keywords between them in order, ORDER BY / LIMIT / OFFSET once, after
-   the last operand, outside every operand's parentheses. *)
+(* The property, for every chain (any length, any operator mix), every keyword-argument context, and every operand
+   that is a query: [frag s k] says every operand has a list of selected terms (a QueryBuilder, or a chain, which
+   answers with its base's list) and, when the base asks for wrapping, answers subquery=True with its own text in
+   parentheses.  Then rendering raises SetOperationException exactly when some operand's arity differs from the
+   base's (whatever with_alias/subquery flags the caller passes), and otherwise yields exactly the specified text:
+   operands in call order, each operand's own text unchanged and parenthesised iff the base's flag asks, the
+   operators' keywords between them in order, ORDER BY / LIMIT / OFFSET once, after the last operand, outside every
+   operand's parentheses.  (The engine clause of C11 is validated on SQLite by the harness, not stated here.) *)
 Definition C11_full_statement : Prop :=
   forall (s : setop) (k : kwargs),
-    o_builder (s_base s) = true ->
-    (is_setop_exc (render_setop s k false false) = true <-> has_mismatch s = true)
+    frag s k = true ->
+    (forall wa sub, is_setop_exc (render_setop s k wa sub) = true <-> has_mismatch s = true)
     /\ (has_mismatch s = false -> render_setop s k false false = ROk (spec_text s k)).
 
-(* ---------- the faithful model refutes it, in two independent ways ---------- *)
+Theorem C11_holds : C11_full_statement.
+Proof.
+  intros s k F. destruct (frag_sound s k F) as [Hb Hs]. split.
+  - intros wa sub. now apply render_exc_iff.
+  - intros Hm. now apply render_ok.
+Qed.
+Print Assumptions C11_holds.
+
 Definition kw0 := no_kwargs.
 Definition q_of (sel : list (option string)) (plain : string) : operand :=
   {| o_sel := sel; o_builder := true; o_wrap := true; o_dialect := None; o_quote := Some """";
@@ -25,53 +34,38 @@ Definition q2 := q_of [None] "SELECT ""a"" FROM ""u""".
 Definition q3 := q_of [None] "SELECT ""a"" FROM ""v""".
 Definition q4 := q_of [None; None] "SELECT ""a"",""b"" FROM ""w""".
 
-(* witness 1: an operand that is itself a chain  q1 + (q2 + q3).  It has the base's arity, is not a QueryBuilder *)
-Definition nested23 : operand :=
-  {| o_sel := [None]; o_builder := false; o_wrap := false; o_dialect := None; o_quote := None;
-     o_text := fun _ sub => let t := "(SELECT ""a"" FROM ""u"") UNION (SELECT ""a"" FROM ""v"")" in
-                            if sub then "(" ++ t ++ ")" else t |}.
-Definition witness_nested : setop := qb_add q1 nested23.
+(* ---------- chains as operands of chains are inside the statement's domain ----------
+   a chain that renders honours the subquery flag and has its base's arity, so (with QueryBuilder leaves) nesting
+   to any depth stays in [frag] *)
+Theorem C11_chain_is_an_operand : forall c k,
+  is_ok (render_setop c k false false) = true ->
+  paren_okb k (as_operand c) = true /\ arity (as_operand c) = arity (s_base c)
+  /\ o_builder (as_operand c) = o_builder (s_base c).
+Proof. intros c k H. split; [now apply as_operand_paren | split; reflexivity]. Qed.
+Print Assumptions C11_chain_is_an_operand.
 
-Theorem C11_refuted : ~ C11_full_statement.
-Proof.
-  intros H. destruct (H witness_nested kw0 eq_refl) as [_ H2].
-  specialize (H2 eq_refl). vm_compute in H2. discriminate.
-Qed.
-Print Assumptions C11_refuted.
+(* ---------- the two hypotheses of [frag] are needed: objects that are not queries ----------
+   a Table (no _selects: TypeError) and a builder with nothing to render (empty text, never parenthesised) *)
+Definition table_u : operand :=
+  {| o_sel := []; o_builder := false; o_wrap := false; o_dialect := None; o_quote := None;
+     o_text := fun _ _ => """u""" |}.
+Definition empty_q : operand :=
+  {| o_sel := []; o_builder := true; o_wrap := true; o_dialect := None; o_quote := Some """";
+     o_text := fun _ _ => "" |}.
+Theorem C11_domain_hypotheses_needed :
+  render_setop (qb_union q1 table_u) kw0 false false = RTypeError
+  /\ has_mismatch (qb_union empty_q empty_q) = false
+  /\ render_setop (qb_union empty_q empty_q) kw0 false false = ROk " UNION "
+  /\ spec_text (qb_union empty_q empty_q) kw0 = "() UNION ()".
+Proof. vm_compute. repeat split. Qed.
+Print Assumptions C11_domain_hypotheses_needed.
 
-(* witness 2: every operand IS a QueryBuilder, but one operand's own get_sql does not honour the subquery flag
-   (VerticaQueryBuilder.get_sql with a hint splices the hint at fixed offsets): its text is changed in the chain *)
-Definition vertica_hint : operand :=
-  {| o_sel := [None]; o_builder := true; o_wrap := true; o_dialect := Some "VERTICA"; o_quote := Some """";
-     o_text := fun _ sub => if sub then "(SELECT/*+label(h1)*/T ""a"" FROM ""t"")"
-                            else "SELECT /*+label(h1)*/ ""a"" FROM ""t""" |}.
-Definition witness_hint : setop := qb_union q1 vertica_hint.
-
-Theorem C11_refuted_among_builders :
-  ~ (forall s k, all_builders s = true -> has_mismatch s = false -> render_setop s k false false = ROk (spec_text s k)).
-Proof. intros H. specialize (H witness_hint kw0 eq_refl eq_refl). vm_compute in H. discriminate. Qed.
-Print Assumptions C11_refuted_among_builders.
-
-(* what happens instead for a non-QueryBuilder operand reached by the loop: TypeError, for every chain *)
-Theorem C11_nested_operand_TypeError : forall s k wa sub pre ty q post,
+(* an object without _selects reached by the loop: TypeError, for every chain *)
+Theorem C11_no_selects_TypeError : forall s k wa sub pre ty q post,
   s_ops s = (pre ++ (ty, q) :: post)%list -> forallb (good (s_base s)) pre = true -> o_builder q = false ->
   render_setop s k wa sub = RTypeError.
 Proof. exact render_nonbuilder. Qed.
-Print Assumptions C11_nested_operand_TypeError.
-
-(* ---------- the fragment on which the full statement holds ----------
-   frag s k: every operand is a QueryBuilder and, when the base asks for wrapping, every operand's own get_sql
-   answers subquery=True with "(" + its subquery=False text + ")" under the effective kwargs. *)
-Theorem C11_on_fragment : forall (s : setop) (k : kwargs),
-  frag s k = true ->
-  (forall wa sub, is_setop_exc (render_setop s k wa sub) = true <-> has_mismatch s = true)
-  /\ (has_mismatch s = false -> render_setop s k false false = ROk (spec_text s k)).
-Proof.
-  intros s k F. destruct (frag_sound s k F) as [Hb Hs]. split.
-  - intros wa sub. now apply render_exc_iff.
-  - intros Hm. now apply render_ok.
-Qed.
-Print Assumptions C11_on_fragment.
+Print Assumptions C11_no_selects_TypeError.
 
 (* the exception is raised at the FIRST operand (in call order) whose arity differs; the message quotes the base's
    and that operand's texts; operands after it are irrelevant *)
@@ -154,9 +148,14 @@ Example C11_example_mismatch :
 Proof. vm_compute. repeat split. Qed.
 Print Assumptions C11_example_mismatch.
 
+(* q1 + (q2 * q3) - q3 : the nested chain is one operand, in its own parentheses, inside the fragment *)
 Example C11_example_nested :
-  render_setop witness_nested kw0 false false = RTypeError
-  /\ has_mismatch witness_nested = false
-  /\ render_setop (so_union witness_nested q4) kw0 false false = RTypeError.
+  let inner := as_operand (qb_mul q2 q3) in
+  let s := so_sub (qb_add q1 inner) q3 in
+  frag s kw0 = true /\ has_mismatch s = false
+  /\ render_setop s kw0 false false =
+     ROk "(SELECT ""a"" FROM ""t"") UNION ((SELECT ""a"" FROM ""u"") UNION ALL (SELECT ""a"" FROM ""v"")) MINUS (SELECT ""a"" FROM ""v"")"
+  /\ render_setop (so_union s q4) kw0 false false
+     = RSetOpExc "(SELECT ""a"" FROM ""t"")" "(SELECT ""a"",""b"" FROM ""w"")".
 Proof. vm_compute. repeat split. Qed.
 Print Assumptions C11_example_nested.
